@@ -174,6 +174,11 @@ func OpaqueParseFloat(on bool) {}
 // Natively a no-op (the Go scheduler runs the goroutines).
 func Concurrent(level, preemptions, timers int) {}
 
+// RaceMonitor turns on gosym's happens-before monitor (after Concurrent):
+// unordered conflicting accesses of two goroutines are reported as a
+// violation of kind "race". Natively the replay runs under `go test -race`.
+func RaceMonitor(on bool) {}
+
 // Yield is a visible operation of the harness itself: under gosym another
 // goroutine may run here; natively the goroutine pauses briefly so that an
 // overlap the code allows actually happens.
